@@ -21,7 +21,7 @@ def pick(rnd, i):
 
 CHECK = ComponentCheck("C16", pick, suite=(("Stack",), ("test/lib/test_stack.py",)))
 shards, run_shard = CHECK.shards, CHECK.run_shard
-RULE = ("histories = hostile random read/peek/write/clear sequences on Stack of depth 1..13 (power of two or not) with unique payload ids and a drain "
+RULE = ("[in 30% of the histories every provided exclusive method has a second, competing caller transaction: a request is issued by the main caller, the rival or both; condition exclusive_method_serves_at_most_one_caller_per_cycle] histories = hostile random read/peek/write/clear sequences on Stack of depth 1..13 (power of two or not) with unique payload ids and a drain "
         "phase; non-trivial distinct case = (depth, simultaneous read+write at full / level 1 / other, clear racing read/write, level)")
 ASSUMPTIONS = ["pysim execution; readiness observed over the static callee tree"]
 MINIMA = {"quick": {"cycles": 5000, "calls:read": 1000, "calls:write": 1000, "distinct": 15}, "thorough": {"cycles": 500000, "distinct": 40}}
